@@ -63,13 +63,36 @@ type block struct {
 
 func (b *block) seek(cmp comparer.Comparer, rstart, rlimit int, key []byte) (index, offset int, err error) {
 	index = sort.Search(b.restartsLen-rstart-(b.restartsLen-rlimit), func(i int) bool {
+		if err != nil {
+			return true
+		}
 		offset := int(binary.LittleEndian.Uint32(b.data[b.restartsOffset+4*(rstart+i):]))
-		offset++                                    // shared always zero, since this is a restart point
-		v1, n1 := binary.Uvarint(b.data[offset:])   // key length
-		_, n2 := binary.Uvarint(b.data[offset+n1:]) // value length
+		// The restart point and the entry it names come from the file.
+		if offset >= b.restartsOffset {
+			if offset != b.restartsOffset {
+				err = &ErrCorrupted{Reason: "restart point out of range"}
+				return true
+			}
+			// The single restart point of a block without entries.
+			return false
+		}
+		offset++ // shared always zero, since this is a restart point
+		v1, n1 := binary.Uvarint(b.data[offset:b.restartsOffset]) // key length
+		if n1 <= 0 {
+			err = &ErrCorrupted{Reason: "entries corrupted"}
+			return true
+		}
+		_, n2 := binary.Uvarint(b.data[offset+n1 : b.restartsOffset]) // value length
 		m := offset + n1 + n2
+		if n2 <= 0 || v1 > uint64(b.restartsOffset-m) {
+			err = &ErrCorrupted{Reason: "entries corrupted"}
+			return true
+		}
 		return cmp.Compare(b.data[m:m+int(v1)], key) > 0
 	}) + rstart - 1
+	if err != nil {
+		return
+	}
 	if index < rstart {
 		// The smallest key is greater-than key sought.
 		index = rstart
@@ -95,15 +118,31 @@ func (b *block) entry(offset int) (key, value []byte, nShared, n int, err error)
 		}
 		return
 	}
-	v0, n0 := binary.Uvarint(b.data[offset:])       // Shared prefix length
-	v1, n1 := binary.Uvarint(b.data[offset+n0:])    // Key length
-	v2, n2 := binary.Uvarint(b.data[offset+n0+n1:]) // Value length
-	m := n0 + n1 + n2
-	n = m + int(v1) + int(v2)
-	if n0 <= 0 || n1 <= 0 || n2 <= 0 || offset+n > b.restartsOffset {
+	// Every number below comes from the file: a varint that overflows has a
+	// negative count, a length may exceed what is left of the block.
+	if b.restartsOffset > len(b.data) {
+		// The block was released under its iterator.
 		err = &ErrCorrupted{Reason: "entries corrupted"}
 		return
 	}
+	rest := b.data[offset:b.restartsOffset]
+	v0, n0 := binary.Uvarint(rest) // Shared prefix length
+	if n0 <= 0 {
+		err = &ErrCorrupted{Reason: "entries corrupted"}
+		return
+	}
+	v1, n1 := binary.Uvarint(rest[n0:]) // Key length
+	if n1 <= 0 {
+		err = &ErrCorrupted{Reason: "entries corrupted"}
+		return
+	}
+	v2, n2 := binary.Uvarint(rest[n0+n1:]) // Value length
+	m := n0 + n1 + n2
+	if n2 <= 0 || v1 > uint64(len(rest)-m) || v2 > uint64(len(rest)-m)-v1 || v0 > uint64(len(b.data)) {
+		err = &ErrCorrupted{Reason: "entries corrupted"}
+		return
+	}
+	n = m + int(v1) + int(v2)
 	key = b.data[offset+m : offset+m+int(v1)]
 	value = b.data[offset+m+int(v1) : offset+n]
 	nShared = int(v0)
@@ -272,6 +311,10 @@ func (i *blockIter) Next() bool {
 			i.dir = dirEOI
 			return false
 		}
+		if nShared > len(i.key) {
+			i.sErr(i.tr.newErrCorruptedBH(i.block.bh, "shared prefix longer than the previous key"))
+			return false
+		}
 		i.key = append(i.key[:nShared], key...)
 		i.value = value
 		i.offset += n
@@ -290,6 +333,10 @@ func (i *blockIter) Next() bool {
 	}
 	if n == 0 {
 		i.dir = dirEOI
+		return false
+	}
+	if nShared > len(i.key) {
+		i.sErr(i.tr.newErrCorruptedBH(i.block.bh, "shared prefix longer than the previous key"))
 		return false
 	}
 	i.key = append(i.key[:nShared], key...)
@@ -383,6 +430,10 @@ func (i *blockIter) Prev() bool {
 				i.prevKeys = append(i.prevKeys, i.key...)
 			}
 			i.value = value
+		}
+		if nShared > len(i.key) {
+			i.sErr(i.tr.newErrCorruptedBH(i.block.bh, "shared prefix longer than the previous key"))
+			return false
 		}
 		i.key = append(i.key[:nShared], key...)
 		offset += n
